@@ -825,6 +825,9 @@ fn avoid(hist: &[Op], m: &Model, op: Op) -> Option<&'static str> {
         CI if t.is_some() && !has("b") && !m.st.indexes.contains_key("ib") => return Some("KF-C21-07 CREATE INDEX on a missing column"),
         // KF-C21-08: RENAME COLUMN onto an existing name is accepted
         RNX if has("c") && has("b") => return Some("KF-C21-08 RENAME onto an existing column"),
+        RN if has("b") && has("e") => return Some("KF-C21-08 RENAME onto an existing column"),
+        // KF-C21-11: TRUNCATE of a schema-qualified table looks the table up in the default schema
+        TRS if m.st.tables.contains_key("s.t") && t.is_none() => return Some("KF-C21-11 TRUNCATE s.t without a root table t"),
         // KF-C21-09: DROP TABLE leaves the TOAST side table behind, the name cannot be re-created
         CT1 | CT2 if t.is_none() && hist.contains(&DT) => return Some("KF-C21-09 re-CREATE after DROP TABLE"),
         // KF-C21-05: any CREATE SCHEMA makes the persisted catalog unreadable
